@@ -132,6 +132,10 @@ func unsatisfied(dir int, c caseSpec) bool {
 		// a nil interface value can neither be marshaled nor be the target of a decode
 		return true
 	}
+	if c.emptyData && dir == dirMarshal {
+		// the case expects no data: only a marshaler that returns nothing (and no error) matches
+		return c.beh != bNothing
+	}
 	if c.nilExpect && dir == dirUnmarshal {
 		// the listed value is nil: only a decoder that leaves the fresh (nil) value alone matches it
 		return c.beh != bNothing
@@ -324,11 +328,24 @@ func runEnc[T any](l *listRun, ls listSpec, mk func(i int, c caseSpec) T) {
 	}
 	// listed is the case as the caller wrote it; right is what its Before hook turns it into
 	// when the case is of the "adjust" kind
-	listedData := func(i int, c caseSpec) string {
-		if c.adjust && ls.dir == dirMarshal {
-			return c.data(i) + "#listed-wrong"
+	jsonDoc := ls.enc == kJSON && ls.dir == dirMarshal
+	rightData := func(i int, c caseSpec) string {
+		if ls.dir == dirMarshal {
+			return c.marshalData(i, jsonDoc)
 		}
 		return c.data(i)
+	}
+	listedData := func(i int, c caseSpec) string {
+		if c.adjust && ls.dir == dirMarshal {
+			return rightData(i, c) + "#listed-wrong"
+		}
+		return rightData(i, c)
+	}
+	binData := func(s string, c caseSpec) []byte {
+		if c.emptyData && s == "" {
+			return nil // the Binary helper compares slices: no data is a nil slice
+		}
+		return []byte(s)
 	}
 	listedValue := func(i int, c caseSpec) T {
 		if c.nilExpect || (c.adjust && ls.dir == dirUnmarshal && ls.shape == shIface && i > 0) {
@@ -358,7 +375,7 @@ func runEnc[T any](l *listRun, ls listSpec, mk func(i int, c caseSpec) T) {
 				cases[i].Before = func(idx int, cc *test.CaseText[T]) error {
 					l.hookIndex("before", i, idx)
 					l.seen("before", i)
-					cc.Data = c.data(i)
+					cc.Data = rightData(i, c)
 					cc.Value = mk(i, c)
 					return nil
 				}
@@ -373,13 +390,13 @@ func runEnc[T any](l *listRun, ls listSpec, mk func(i int, c caseSpec) T) {
 		cases := make([]test.CaseBinary[T], len(ls.cases))
 		for i, c := range ls.cases {
 			cases[i] = test.CaseBinary[T]{Constraint: constraints[c.constraint], Before: hook[test.CaseBinary[T]](l, i, c.before, "before"), After: hook[test.CaseBinary[T]](l, i, c.after, "after"),
-				Error: predicate(c, i), Data: []byte(listedData(i, c)), Value: listedValue(i, c)}
+				Error: predicate(c, i), Data: binData(listedData(i, c), c), Value: listedValue(i, c)}
 			if c.adjust {
 				i, c := i, c
 				cases[i].Before = func(idx int, cc *test.CaseBinary[T]) error {
 					l.hookIndex("before", i, idx)
 					l.seen("before", i)
-					cc.Data = []byte(c.data(i))
+					cc.Data = binData(rightData(i, c), c)
 					cc.Value = mk(i, c)
 					return nil
 				}
@@ -400,7 +417,7 @@ func runEnc[T any](l *listRun, ls listSpec, mk func(i int, c caseSpec) T) {
 				cases[i].Before = func(idx int, cc *test.CaseJSON[T]) error {
 					l.hookIndex("before", i, idx)
 					l.seen("before", i)
-					cc.Data = c.data(i)
+					cc.Data = rightData(i, c)
 					cc.Value = mk(i, c)
 					return nil
 				}
@@ -418,7 +435,7 @@ func runEnc[T any](l *listRun, ls listSpec, mk func(i int, c caseSpec) T) {
 // left the helper, if any.
 func execList(ls listSpec, keepMsgs bool) (l *listRun, escaped interface{}) {
 	resetPackages() // every helper invocation starts from package test's initial state
-	l = &listRun{specs: ls.cases, enc: ls.enc, lastSeen: -1, failures: make([]int, len(ls.cases)), goexit: ls.goexit, keepMsgs: keepMsgs}
+	l = &listRun{specs: ls.cases, enc: ls.enc, jsonDoc: ls.enc == kJSON && ls.dir == dirMarshal, lastSeen: -1, failures: make([]int, len(ls.cases)), goexit: ls.goexit, keepMsgs: keepMsgs}
 	cur = l
 	defer func() { cur = nil }()
 	body := func() {
@@ -585,6 +602,12 @@ func normalise(ls *listSpec) {
 		}
 		if c.other && ls.shape != shIface {
 			c.other = false
+		}
+		if c.emptyData && (ls.dir != dirMarshal || c.pred != pNone || c.adjust || c.beh == bNilReceiver) {
+			c.emptyData = false
+		}
+		if c.wrongKind == wJSONEquivalent && !(ls.enc == kJSON && ls.dir == dirMarshal) {
+			c.wrongKind = wTilde
 		}
 		if ls.shape == shByte && i >= 90 {
 			c.constraint = 2 - ls.dir // a uint8 case number stays below the "wrong" offset
